@@ -53,10 +53,15 @@ func (s *uState) log(kind, name string, args []any) (int, bool) {
 	for i, a := range args {
 		xs[i] = renderAny(a)
 	}
-	s.trace = append(s.trace, kind+":"+name+"("+strings.Join(xs, ",")+")")
 	n := s.n
 	s.n++
-	return n, n == s.failAt
+	fail := n == s.failAt && kind != "condok"
+	if fail {
+		// the log entry of a call that reports a failure carries a `!` after its kind
+		kind += "!"
+	}
+	s.trace = append(s.trace, kind+":"+name+"("+strings.Join(xs, ",")+")")
+	return n, fail
 }
 
 func valText(a any) ([]byte, bool) {
